@@ -530,6 +530,11 @@ func (t *tr) call(c *ast.CallExpr, out *[]string) {
 			t.reflectiveRead(a, out)
 			if ty := t.info.TypeOf(a); ty != nil {
 				if name, ok := ifaceName(ty); ok && (name == "Writer" || name == "Wrapper" || name == "Node" || name == "Sender") {
+					// a stream held in a tracked field is written to by the callee: the pseudo field "<field>*" stands for
+					// the stream's content (writes to it must be serialised by the owner's lock)
+					if fl, ok := t.fieldOf(ast.Unparen(a), nil); ok && name == "Writer" {
+						t.wr(a, fl+"*", out)
+					}
 					*out = append(*out, actp(fmt.Sprintf("User %q", name+".*")))
 				}
 			}
